@@ -6,7 +6,7 @@ import itertools
 from fractions import Fraction
 
 from ..absint import FuncV, Interp, ObjV, VecV, State
-from ..forms import Const, Form, TupleV, fpow, mk_attr, mk_fn, atom_children, subst_value
+from ..forms import Const, Form, SliceV, TupleV, fpow, mk_attr, mk_fn, atom_children, subst_value
 from ..rules import PI, S, find_raise_guards, names_in, check_late_binding
 from ..srcmodel import src_of, norm_src
 
@@ -25,6 +25,8 @@ EXPLANATION = (
     "exits: a presence test written as a truthiness test adds one). Not decided: numerical agreement/monotonicity/quad accuracy.")
 EXPLANATION += (" Added after the audit wave: C13.5 the threshold returned by optimum_threshold equals the closed-form root as a rational function (difference zero after clearing denominators: any rearrangement is accepted) and no sum it divides by vanishes identically for S1 = S0 (equal variances are the midpoint case of the statement); C13.3 a spelling of `decision` that the validation of ppm.BER_analizer lets through ('Hard', 'SOFT') is refused with ValueError or computed like its lower-case form.")
 EXPLANATION += (' Second audit wave: C13.10 (open known finding) the soft-decision error probability is not formed as 1 - quad(...) with an absolute tolerance (everything below 1.49e-8 is quadrature noise); C13.3 accepts the complement integrated directly (expm1/log1p/exp(k log w) are folded).')
+EXPLANATION += (' Third audit wave: C13.11 the threshold grid of utils.theory_BER starts on the OFF level, whose deviation is zero inside the stated ranges (T = 0, ER = inf, no ASE), so its first entry is Q(0/0): the reduction over that grid is nan-ignoring (nanmin) or the grid leaves out the level (r[1:], r[1:-1]); a plain min there returned nan for the whole error probability. C13.12 the objective whose minimiser ppm.THRESHOLD_EST returns is not written as a subtraction from one (syntactic root of the argmin argument, a local name or local function followed): 1 - P(correct) is exactly 0 below 1.1e-16, a plateau on the grid for mu1 - mu0 > 16.4 s, and argmin returns the first index of the plateau; C13.3 still decides that the objective equals the hard-decision symbol error (erfc(-u) = 2 - erfc(u), expm1, log1p and exp(k log w) are folded, so the accurate spelling and the direct one have one normal form).')
+EXPLANATION += (' C13.13 the minimiser ook.THRESHOLD_EST returns is the middle of the tie set flatnonzero(cost == min(cost)) (nanmin, where(...)[0], .size spellings accepted): for equal sigmas that is the midpoint even when both tails underflow, which the first of the tied grid points is not.')
 TRUSTED = ["scipy.special.erfc, scipy.integrate.quad semantics", "numpy.vectorize/linspace/argmin", "scipy.constants h, k, e, c", "utils.idb/idbm/Q (C19)"]
 
 H_ = Form.atom(("c", "scipy.constants.h"))
@@ -249,15 +251,35 @@ def _q_guard(ctx, fi, rule, assumptions=None, extra=None, min_m=1):
     check_pow2_guard(ctx, rule, fi, assumptions=assumptions, extra=extra, min_m=min_m)
 
 
-def _grid_argmin(v):
-    """(grid, grid arguments, objective) when v is `linspace(a, b, n)[argmin(objective)]`, however the calls are spelt"""
+def _grid_argmin(v, how=None):
+    """(grid, grid arguments, objective) when v is `linspace(a, b, n)[i]` with i an index at which the objective is least: argmin
+    (first minimiser), or an element T[k] of the set of exact minimisers T = flatnonzero(objective == min(objective)) /
+    where(...)[0], min or nanmin.  `how`, when given, receives {"pick": "argmin" | k} (k: the position inside the tie set)"""
     a = v.single_atom() if isinstance(v, Form) else None
     if not (a and a[0] == "idx" and isinstance(a[1], Form) and isinstance(a[2], Form)):
         return None
     g, i = a[1].single_atom(), a[2].single_atom()
-    if not (g and g[0] == "fn" and g[1] == "linspace" and i and i[0] == "fn" and i[1] == "argmin" and len(i[2]) == 1 and not i[3]):
+    if not (g and g[0] == "fn" and g[1] == "linspace" and i):
         return None
-    return a[1], list(g[2]), i[2][0]
+    if i[0] == "fn" and i[1] in ("argmin", "nanargmin") and len(i[2]) == 1 and not i[3]:
+        if how is not None:
+            how["pick"] = "argmin"
+        return a[1], list(g[2]), i[2][0]
+    if i[0] == "idx" and isinstance(i[1], Form):
+        t = i[1].single_atom()
+        if t and t[0] == "idx" and isinstance(t[1], Form) and isinstance(t[2], Form) and t[2].is_zero():
+            w = t[1].single_atom()                      # where(cond)[0]
+            t = w if (w and w[0] == "fn" and w[1] == "where" and len(w[2]) == 1) else None
+        if t and t[0] == "fn" and t[1] in ("flatnonzero", "where") and len(t[2]) == 1 and isinstance(t[2][0], Form):
+            e = t[2][0].single_atom()
+            if e and e[0] == "fn" and e[1] == "eq" and len(e[2]) == 2 and all(isinstance(x, Form) for x in e[2]):
+                for obj, least in (e[2], e[2][::-1]):
+                    if any(least == mk_fn(nm, [obj]) for nm in ("min", "nanmin", "amin")):
+                        if how is not None:
+                            how["pick"] = i[2]
+                            how["ties"] = i[1]
+                        return a[1], list(g[2]), obj
+    return None
 
 
 def _positive_sigmas(d):
@@ -341,9 +363,11 @@ def rule_error_probabilities(ctx):
     it.domain_sign = _positive_sigmas             # "for all s0, s1 > 0"
     outs = it.run(fi)
     rets = _equal_sigma_shortcuts(ctx, fi, it, [o for o in outs if o.kind == "return"], mu0, mu1, s0, s1)
-    ga = _grid_argmin(rets[0].value) if len(rets) == 1 else None
+    how = {}
+    ga = _grid_argmin(rets[0].value, how) if len(rets) == 1 else None
     if ga is not None:
         r, gargs, obj = ga
+        _plateau_pick(ctx, fi, rets[0].node, how, "C13.13")
         ctx.check("C13.3", obj == ook_pe(mu0, mu1, s0, s1, r), fi, rets[0].node, "ook.THRESHOLD_EST objective", "1/2[Q((mu1-r)/s1)+Q((r-mu0)/s0)]",
                   f"objective {obj!r} differs from the OOK error probability"[:500])
         ok = len(gargs) >= 2 and gargs[0] == mu0 and gargs[1] == mu1
@@ -394,6 +418,16 @@ def rule_error_probabilities(ctx):
                   f"objective {obj!r} differs from the PPM hard-decision symbol error"[:500])
         ok = len(gargs) >= 2 and gargs[0] == mu0 and gargs[1] == mu1
         ctx.check("C13.5", ok, fi, rets[0].node, "ppm.THRESHOLD_EST result", "element of linspace(mu0, mu1, n) at the argmin", "threshold is not taken from linspace(mu0, mu1, n) at the minimiser")
+        # C13.12: the minimiser is located on the objective's small values (1e-17 .. 1e-90 for mu up to 20 s).  Formed as the
+        # subtraction `1 - P(correct)` the objective has no resolution below 1.1e-16: around the optimum it is exactly 0 over a
+        # stretch of the grid and argmin returns the first index of that plateau, not the root of (M-1)N0 = N1
+        roots = _argmin_objective_roots(fi)
+        if not roots:
+            ctx.unknown("C13.12", fi, fi.node, "ppm.THRESHOLD_EST: objective expression", "argument of the argmin not found in the source")
+        for node in roots:
+            ctx.check("C13.12", not _is_one_minus(node), fi, node, "ppm.THRESHOLD_EST: objective not formed by subtraction from one", "sum of tail probabilities (expm1/log1p form)",
+                      "the objective is written 1 - P(correct): below 1.1e-16 it is exactly 0, so for mu1 - mu0 > 16.4 s (inside mu in (0, 20 s]) the grid holds a plateau of zeros and "
+                      "argmin returns its first index - THRESHOLD_EST(mu0=0, mu1=17, s0=s1=1, M=2) = 8.304 where (M-1)N0 = N1 at 8.5 (20: 8.308 for 10)")
     else:
         ctx.unknown("C13.3", fi, fi.node, "ppm.THRESHOLD_EST", "argmin over a linspace grid not found")
     pass  # (clause removed: the property statement names no exception for this case - it was read off the docstring, i.e. the check demanded more than the property)
@@ -502,6 +536,17 @@ def rule_error_probabilities(ctx):
             _check_soft(ctx, fi, it, v, rets[0].node, case, on - off, sv[0], sv[1], M, M / (2 * (M - 1)))
         if dec == "soft":
             continue
+        # C13.11: inside the stated domain the OFF level can be noise free (T = 0, ER = inf, no ASE: thermal, shot and beat terms all
+        # vanish there), so at the first grid point - the OFF level itself - the argument (r - mu_OFF)/s0 is 0/0; a plain minimum
+        # propagates that nan.  Either the reduction ignores undefined entries or the grid does not start on the level
+        if ls and len(ls) == 1 and ls[0].args and ls[0].args[0] == off:
+            g_ = ls[0].result
+            on_level = not any(v == f_ * mk_fn("min", [o_(_interior(g_, b_))]) for b_ in (True, False)
+                               for f_, o_ in ((Form.num(1), lambda t: ook_pe(off, on, sv[0], sv[1], t)), (M / (2 * (M - 1)), lambda t: ppm_hard(off, on, sv[0], sv[1], t, M))))
+            plain = on_level and _mentions_fn(v, "min") and not _mentions_fn(v, "nanmin")
+            ctx.check("C13.11", not plain, fi, rets[0].node, f"{case}: minimum over a grid that starts on the OFF level", "undefined entries are ignored (nanmin)",
+                      "the threshold grid starts at mu_OFF and is reduced with a plain min: with a noise-free OFF level (T = 0, ER = inf, unamplified or G = 0 dB, all inside the "
+                      "stated ranges) the first entry is Q(0/0) = nan and the whole error probability is nan (theory_BER(-50, 'ook', T=0) = nan where T = 1e-9 gives 1.04e-4)")
         # an explicit relative threshold t is the level t*mu_ON + (1-t)*mu_OFF between the two received levels of the model
         ass2 = dict(ass)
         ass2["threshold"] = "notnone"
@@ -519,14 +564,111 @@ def rule_error_probabilities(ctx):
                   "the result is not the two-Gaussian error of the receiver model at the requested threshold")
 
 
+def _plateau_pick(ctx, fi, node, how, rule):
+    """C13.13 / C03.13: with a nearly noise-free eye (the whole of C03's domain: s0 of 3e-4 of the eye) both tails underflow to exactly 0 over
+    most of [mu0, mu1]: every grid point of that stretch is a minimiser, and which one is returned decides the threshold.  The first
+    (argmin, ties[0]) sits 0.1-1.5 % of the eye above mu0, the last as close to mu1; the one in the middle of the tie set is the only
+    choice that keeps the threshold away from both levels - and is the midpoint for equal sigmas, as C13 states"""
+    pick = how.get("pick")
+    label = "ook.THRESHOLD_EST: which of the tied minimisers is returned"
+    bad = "the cost 1/2[Q((mu1-r)/s1)+Q((r-mu0)/s0)] underflows to exactly 0 over most of the grid when the eye is nearly noise free; {} - ook.DSP on 35 slots of " \
+          "PRBS-7 (sps 16, Gaussian m=2, ER 10 dB, DM 99 ps^2, PD BW 72 GHz, no noise) put the threshold 1.5 % of the eye above mu0 and decided the last 0 as 1 (eye margin 0.977)"
+    if pick == "argmin":
+        ctx.violation(rule, fi, node, label, bad.format("argmin returns the first of them, next to mu0"))
+        return
+    ties = how.get("ties")
+    n_t = [mk_fn("len", [ties]), Form.atom(("attr", ties, "size")), mk_fn("size", [ties])] if ties is not None else []
+    middle = isinstance(pick, Form) and any(pick == mk_fn("floordiv", [n, Form.num(2)]) or pick == mk_fn("floordiv", [n - 1, Form.num(2)]) for n in n_t)
+    if middle:
+        ctx.holds(rule, fi, node, label, "the middle element of flatnonzero(cost == min(cost))")
+    elif isinstance(pick, Form) and pick.rational() is not None:
+        ctx.violation(rule, fi, node, label, bad.format(f"element [{pick!r}] of the tie set is an end of the stretch, next to one of the levels"))
+    else:
+        ctx.unknown(rule, fi, node, label, f"position {pick!r} inside the tie set not recognised")
+
+
+def rule_tied_minimisers(ctx, rule):
+    """the clause above under another property's number (C03: ook.DSP returns the transmitted bits of a noise-free link)"""
+    fi = ctx.pkg.func("ook.THRESHOLD_EST")
+    it = Interp(ctx.pkg, param_classes={"eye_obj": "eye"})
+    rets = [o for o in it.run(fi) if o.kind == "return" and isinstance(o.value, Form)]
+    found = False
+    for o in rets:
+        how = {}
+        if _grid_argmin(o.value, how) is not None:
+            _plateau_pick(ctx, fi, o.node, how, rule)
+            found = True
+    if not found:
+        ctx.unknown(rule, fi, fi.node, "ook.THRESHOLD_EST: which of the tied minimisers is returned", "grid minimiser not found")
+
+
+def _argmin_objective_roots(fi):
+    """the expression(s) whose least value an argmin in fi locates, with a local name followed to its assignments and a call of a
+    local lambda / def to the value it returns"""
+    assigns, funcs = {}, {}
+    for n in ast.walk(fi.node):
+        if isinstance(n, ast.Assign) and len(n.targets) == 1 and isinstance(n.targets[0], ast.Name):
+            if isinstance(n.value, ast.Lambda):
+                funcs[n.targets[0].id] = [n.value.body]
+            else:
+                assigns.setdefault(n.targets[0].id, []).append(n.value)
+        elif isinstance(n, ast.FunctionDef) and n is not fi.node:
+            funcs[n.name] = [r.value for r in ast.walk(n) if isinstance(r, ast.Return) and r.value is not None]
+    out = []
+
+    def follow(e, depth=0):
+        if depth > 4:
+            return [e]
+        if isinstance(e, ast.Name) and e.id in assigns:
+            return [x for v in assigns[e.id] for x in follow(v, depth + 1)]
+        if isinstance(e, ast.Call) and isinstance(e.func, ast.Name) and e.func.id in funcs:
+            return [x for v in funcs[e.func.id] for x in follow(v, depth + 1)]
+        return [e]
+    for n in ast.walk(fi.node):
+        if isinstance(n, ast.Call) and isinstance(n.func, ast.Attribute) and n.func.attr in ("argmin", "nanargmin"):
+            arg = n.args[0] if n.args else (n.func.value if not (isinstance(n.func.value, ast.Name) and n.func.value.id in ("np", "numpy")) else None)
+            if arg is not None:
+                out.extend(follow(arg))
+    return out
+
+
+def _is_one_minus(e):
+    one = lambda x: isinstance(x, ast.Constant) and isinstance(x.value, (int, float)) and not isinstance(x.value, bool) and x.value == 1
+    if isinstance(e, ast.BinOp) and isinstance(e.op, ast.Sub) and one(e.left):
+        return True
+    if isinstance(e, ast.Call) and isinstance(e.func, ast.Attribute) and e.func.attr == "subtract" and e.args and one(e.args[0]):
+        return True
+    return False
+
+
+def _interior(r, both):
+    """r[1:-1] (both) or r[1:]: the grid without the level(s) it starts (and ends) on"""
+    return Form.atom(("idx", r, SliceV(Form.num(1), Form.num(-1) if both else Const(None), Const(None))))
+
+
+def _mentions_fn(v, name):
+    """the form v contains an application of the function `name` (at any depth)"""
+    if isinstance(v, Form):
+        for m in v.terms:
+            for a, _ in m:
+                if a[0] == "fn" and a[1] == name:
+                    return True
+                if any(_mentions_fn(c, name) for c in atom_children(a)):
+                    return True
+    elif isinstance(v, TupleV):
+        return any(_mentions_fn(c, name) for c in v.items)
+    return False
+
+
 def _is_grid_minimum(ctx, it, v, fac, objective, grid_rec, off, on):
     """v is fac * (the least of the objective over the grid linspace(off, on, n)), possibly lowered further by values of the SAME
     objective at other thresholds inside [off, on] (a bounded scalar minimiser started around the best grid point): the result is
     then still an error probability of an admissible threshold (never below the true minimum) and never above the grid minimum"""
     r = grid_rec.result
+    for r_ in (r, _interior(r, True), _interior(r, False)):   # the grid, or the grid without its first (and last) point - still inside [off, on]
+        if v == fac * mk_fn("min", [objective(r_)]) or v == fac * mk_fn("nanmin", [objective(r_)]):
+            return True                                      # which reduction it has to be on which grid: C13.11
     gmin = mk_fn("min", [objective(r)])
-    if v == fac * gmin:
-        return True
     refin = [c for c in it.calls if c.callee in ("scipy.optimize.minimize_scalar",)]
     if not refin:
         return False
